@@ -2432,6 +2432,10 @@ def alias_hazards(ka, W, R, dmax=5):
             wb = dict(wbranch)
             if any(k in wb and wb[k] != arm for k, arm in r.branch):
                 continue
+            # a write in an arm that ends in return / raise is followed only by what that arm still executes
+            term = getattr(ka, 'term_arms', {})
+            if any(b in term and b not in r.branch for b in wbranch):
+                continue
             # variables: write side uses the original uids, read side primed copies for loop variables
             rl = r.loops
             common = 0
